@@ -68,6 +68,11 @@ pub fn fired() -> bool {
     FIRED.with(|c| c.get())
 }
 
+/// Per-call counts since arming.
+pub fn counts() -> [u64; 4] {
+    COUNTS.with(|c| c.get())
+}
+
 /// Stop counting; returns the per-call counts since arming and whether the fault fired.
 pub fn disarm() -> ([u64; 4], bool) {
     ARMED.with(|c| c.set(false));
